@@ -12,11 +12,25 @@ package tls
 //@ fold ja3u16(a []uint16, skip bool) :: step(acc, x) = ite(skip && grease(uint16(x)), acc, snoc(acc, decany(any(x))))
 //@ fold ja3u8(a []uint8) :: step(acc, x) = snoc(acc, decany(any(x)))
 //
+//@ spec ja3str(c *ClientHelloInfo) string = concat(concat(concat(concat(concat(decany(any(c.Version)), ","), concat(joinl(ja3u16(c.CipherSuites, true), "-"), ",")), concat(joinl(ja3u16(c.Extensions, true), "-"), ",")), concat(joinl(ja3u16(c.SupportedCurves, true), "-"), ",")), joinl(ja3u8(c.SupportedPoints), "-"))
+//
 //@ func (*ClientHelloInfo).JA3
-//@   ensures [ja3] result == concat(concat(concat(concat(concat(decany(any(c.Version)), ","), concat(joinl(ja3u16(c.CipherSuites, true), "-"), ",")), concat(joinl(ja3u16(c.Extensions, true), "-"), ",")), concat(joinl(ja3u16(c.SupportedCurves, true), "-"), ",")), joinl(ja3u8(c.SupportedPoints), "-"))
+//@   ensures [ja3] result == ja3str(c)
 //@   modifies nothing
 //@   loop 1: invariant forall v uint16 :: haskey(greaseTable, v) <==> grease(v)
 //@   loop 1: invariant list(vals) == ja3u16(c.CipherSuites[:rangeindex+1], true)
 //@   loop 2: invariant list(vals) == ja3u16(c.Extensions[:rangeindex+1], true)
 //@   loop 3: invariant list(vals) == ja3u16(c.SupportedCurves[:rangeindex+1], true)
 //@   loop 4: invariant list(vals) == ja3u8(c.SupportedPoints[:rangeindex+1])
+
+//
+//@ func (*ClientHelloInfo).JA3Digest
+//@   ensures [digest] result == hexenc(md5sum(old(ja3str(c))))
+//@   modifies ghost(hashed)
+//
+// The hello information handed to the application is field by field what was parsed: the LEGACY
+// version field, cipher suites, extension types, curves and point formats in wire order, and the SNI.
+//@ func (*serverHandshakeState).clientHelloInfo
+//@   ensures [fresh-info] old(hs.cachedClientHelloInfo) == nil ==> result.Version == hs.clientHello.vers && result.CipherSuites == hs.clientHello.cipherSuites && result.Extensions == hs.clientHello.extensions && result.SupportedCurves == hs.clientHello.supportedCurves && result.SupportedPoints == hs.clientHello.supportedPoints && result.ServerName == hs.clientHello.serverName
+//@   ensures [cached] old(hs.cachedClientHelloInfo) != nil ==> result == old(hs.cachedClientHelloInfo)
+//@   modifies hs.cachedClientHelloInfo
